@@ -4,7 +4,7 @@
 # Never commits anything to /repo; refuses to start when /repo has local modifications.
 cd /verif
 if [ -n "$(git -C /repo status --porcelain)" ]; then echo "/repo is dirty; refusing"; exit 9; fi
-SEEDS="$@"; [ -z "$SEEDS" ] && SEEDS=$(ls seeded)
+SEEDS="$@"; [ -z "$SEEDS" ] && SEEDS=$(cd seeded && ls -d */ | tr -d /)
 if [ $# -eq 0 ]; then
   for id in $(python3 -c "import json;print(' '.join(c['property_id'] for c in json.load(open('MANIFEST.json'))['checks']))" 2>/dev/null || ls evidence | sed 's/.json//'); do
     out=$(./check $id 2>&1); rc=$?
